@@ -12,7 +12,11 @@ MCSchemes == <<
      <<"text/html;", "text/html,", "image/svg+xml;", "image/png;", "IMAGE/PNG;", "image/gif;", "image/jpeg;",
        "image/webp;", "image/png", "text/html;image/png;", "image/png&semi;", "image/x-png;", ";", "">> >>,
   << <<"http", "HTTP", "https", "mailto", "ftp", "tel", "x-javascript", "javascripts", "java-script">>, Colon, <<"//x.y/", "">> >>,
-  << <<"", "/", "./", "#", "?", "//">>, <<"javascript", "a b", "a%20b", "{u+00e9}", "%", "%zz", "[x]", "a\\)b", "&amp;">>, <<":", "">> >>
+  << <<"", "/", "./", "#", "?", "//">>, <<"javascript", "a b", "a%20b", "{u+00e9}", "%", "%zz", "[x]", "a\\)b", "&amp;">>, <<":", "">> >>,
+  \* e-mail shaped destinations (autolink producer: the mailto: form) and characters outside the URL-safe set
+  << <<"a{b}", "x^y", "f|l", "50%", "a`b", "q%zz", "{u+00e9}", "a+b", "A.B", "%41", "a\\b">>, <<"@">>,
+     <<"example.com", "xn--bcher-kva.example", "b{u+00fc}cher.example", "x.y">>, <<"", "?s={t}">> >>,
+  << <<"http", "mailto", "irc">>, <<":">>, <<"//x.y/", "">>, <<"a{b}", "x^y|z", "`", "{u+00e9}{u+1f600}", "%", "%4", "%zz%41", "a\\b", "\"">> >>
 >>
-MCPayloads == <<"alert(1)", "x">>
+MCPayloads == <<"alert(1)", "x", "">>
 =============================================================================
